@@ -80,6 +80,9 @@ Password = "operpwb"
 [[IRC.Operators]]
 Name = "rootb2"
 Password = "operpwb2"
+[[IRC.Operators]]
+Name = "rootb"
+Password = "operpwb3"
 [[IRC.Services]]
 Password = "svcpwb"
 [TrustedBridges]
@@ -117,8 +120,10 @@ func c16ModelB() config.Network {
 	}
 	return config.Network{
 		IRC: config.IRC{
-			Operators: []config.IRCOp{{Name: "rootb", Password: "operpwb"}, {Name: "rootb2", Password: "operpwb2"}},
-			Services:  []config.Service{{Password: "svcpwb"}},
+			Operators: []config.IRCOp{{Name: "rootb", Password: "operpwb"}, {Name: "rootb2", Password: "operpwb2"},
+				// a second entry for a name that is already taken: OPER walks the whole list, both passwords are valid
+				{Name: "rootb", Password: "operpwb3"}},
+			Services: []config.Service{{Password: "svcpwb"}},
 		},
 		SessionExpiration:       config.Duration(45 * time.Minute),
 		PostMessageCooloff:      config.Duration(1250 * time.Microsecond), // not a whole number of milliseconds
